@@ -49,6 +49,7 @@ def Still : PExpr → Bool
   | .beginKw _ => true
   | .endKw => true
   | .fail => true
+  | .kwGuard _ => true
   | .drop e => Still e
   | .seq es => StillL es
   | _ => false
@@ -94,6 +95,7 @@ def WF : PExpr → Bool
   | .endKw => true
   | .dirScope e => WF e
   | .kwScope _ e => WF e
+  | .kwGuard _ => true
   | .ifDir a b => WF a && WF b
   | .nestl first item _ _ => WF first && WF item
   | .shaped stmts res => WFS stmts (shapeVars res) 0
